@@ -2,7 +2,7 @@
    Print Assumptions; the statements are pinned here so they cannot be quietly weakened.
    All theorems hold for ALL trees (no well-formedness hypothesis is needed: the filters never
    look at keys). *)
-From FB Require Import C10.Model C10.Theory C10.Theory2.
+From FB Require Import C10.Model C10.Shapes C10.Theory C10.Theory2 C10.Theory3.
 
 (* The placeholder constants (generated from the Rust source by translate/c10_consts.py) are the
    documented ones: C_ and net/minecraft/unmapped/C_ for classes, f_ for fields, m_ / <init> /
@@ -211,6 +211,147 @@ Print Assumptions C10_remove_dummy_perm.
 Theorem C10_remove_dummy_wf : forall M ns M', wf M = true -> remove_dummy M ns = Ok M' -> wf M' = true.
 Proof. exact remove_dummy_wf. Qed.
 Print Assumptions C10_remove_dummy_wf.
+
+(* ---------------------------------------------------------------------------------------------
+   Round 4 *)
+
+(* The value of every retain closure of remove_dummy.rs / insert_dummy.rs, REGENERATED from the Rust
+   source as a boolean function of its atoms (coq/C10/Shapes.v, translate/c10_consts.py: doc =
+   javadoc.is_some() resp. javadoc.is_diff(), name = the whole name test, *_empty = <children>.is_empty(),
+   check = the `match &v.info` variable, info = info.is_diff()), is — for ALL values of the atoms —
+   the documented condition; so is the value of `validator_check` per Action variant and the set of
+   variants rewritten to Action::Edit; and every prefix test looks at the whole name.  A regrouping
+   such as check && (info || doc || !children.is_empty()) makes this unprovable. *)
+Theorem C10_retain_shapes :
+  (forall doc name, rd_shape_param doc name = doc || negb name) /\
+  (forall doc name, rd_shape_field doc name = doc || negb name) /\
+  (forall doc params_empty name, rd_shape_method doc params_empty name = doc || negb params_empty || negb name) /\
+  (forall doc fields_empty methods_empty name,
+     rd_shape_class doc fields_empty methods_empty name = doc || negb fields_empty || negb methods_empty || negb name) /\
+  (forall check info doc, ins_shape_param check info doc = check && (info || doc)) /\
+  (forall check info doc, ins_shape_field check info doc = check && (info || doc)) /\
+  (forall check info doc params_empty,
+     ins_shape_method check info doc params_empty = check && (info || doc) || negb params_empty) /\
+  (forall check info doc fields_empty methods_empty,
+     ins_shape_class check info doc fields_empty methods_empty =
+     check && (info || doc) || negb fields_empty || negb methods_empty) /\
+  ins_validator_param = (true, false, true, true) /\ ins_validator_field = (true, false, true, true) /\
+  ins_validator_method = (true, false, true, true) /\ ins_validator_class = (true, false, true, true) /\
+  ins_rewrites_param = (false, false, true, false) /\ ins_rewrites_field = (false, false, true, false) /\
+  ins_rewrites_method = (false, false, true, false) /\ ins_rewrites_class = (false, false, true, false) /\
+  rd_name_receivers_plain = true.
+Proof. exact retain_shapes. Qed.
+Print Assumptions C10_retain_shapes.
+
+(* ... and the model's conditions are these functions applied to the model's atoms *)
+Theorem C10_model_uses_shapes : forall i,
+  (forall p, keep_param i p = rd_shape_param (is_some (p_doc p)) (ph_param i p)) /\
+  (forall f, keep_field i f = rd_shape_field (is_some (f_doc f)) (ph_field i f)) /\
+  (forall m, keep_meth i m = rd_shape_method (is_some (m_doc m)) (is_nil (m_params m)) (ph_meth i m)) /\
+  (forall c, keep_class i c = rd_shape_class (is_some (c_doc c)) (is_nil (c_fields c)) (is_nil (c_methods c)) (ph_class i c)) /\
+  (forall p, keep_dparam p = ins_shape_param (validator (dp_info p)) (is_diff (dp_info p)) (is_diff (dp_doc p))) /\
+  (forall f, keep_dfield f = ins_shape_field (validator (df_info f)) (is_diff (df_info f)) (is_diff (df_doc f))) /\
+  (forall m, keep_dmeth m = ins_shape_method (validator (dm_info m)) (is_diff (dm_info m)) (is_diff (dm_doc m)) (is_nil (dm_params m))) /\
+  (forall c, keep_dclass c = ins_shape_class (validator (dc_info c)) (is_diff (dc_info c)) (is_diff (dc_doc c))
+                               (is_nil (dc_fields c)) (is_nil (dc_methods c))) /\
+  (forall a : action str, validator a = match a with ANone => true | AAdd _ => false | ARemove _ => true | AEdit _ _ => true end).
+Proof. exact model_uses_shapes. Qed.
+Print Assumptions C10_model_uses_shapes.
+
+(* the class placeholder predicate on ALL names: the FULL name starts with C_ or with
+   net/minecraft/unmapped/C_ — nothing about simple names, packages or `$` *)
+Theorem C10_class_placeholder_predicate : forall i c,
+  ph_class i c = true <->
+  exists x r, nth_name (c_names c) i = Some x /\
+    (x = [67;95] ++ r \/
+     x = [110;101;116;47;109;105;110;101;99;114;97;102;116;47;117;110;109;97;112;112;101;100;47;67;95] ++ r).
+Proof. exact class_placeholder_predicate. Qed.
+Print Assumptions C10_class_placeholder_predicate.
+
+(* insert_dummy's retain conditions case by case: (addition | anything else) x (a child is kept | none) *)
+Theorem C10_insert_retain_cases :
+  (forall p, IsAdd (dp_info p) -> ~ KeptDParam p) /\
+  (forall f, IsAdd (df_info f) -> ~ KeptDField f) /\
+  (forall p, ~ IsAdd (dp_info p) -> (KeptDParam p <-> OwnChange (param_placeholder (dp_index p)) (dp_info p) (dp_doc p))) /\
+  (forall f, ~ IsAdd (df_info f) -> (KeptDField f <-> OwnChange (df_name f) (df_info f) (df_doc f))) /\
+  (forall m, IsAdd (dm_info m) -> (KeptDMeth m <-> exists p, In p (dm_params m) /\ KeptDParam p)) /\
+  (forall m, ~ IsAdd (dm_info m) -> (exists p, In p (dm_params m) /\ KeptDParam p) -> KeptDMeth m) /\
+  (forall m, ~ IsAdd (dm_info m) -> ~ (exists p, In p (dm_params m) /\ KeptDParam p) ->
+     (KeptDMeth m <-> OwnChange (dm_name m) (dm_info m) (dm_doc m))) /\
+  (forall c, IsAdd (dc_info c) ->
+     (KeptDClass c <-> (exists f, In f (dc_fields c) /\ KeptDField f) \/ (exists m, In m (dc_methods c) /\ KeptDMeth m))) /\
+  (forall c, ~ IsAdd (dc_info c) ->
+     ((exists f, In f (dc_fields c) /\ KeptDField f) \/ (exists m, In m (dc_methods c) /\ KeptDMeth m)) -> KeptDClass c) /\
+  (forall c, ~ IsAdd (dc_info c) ->
+     ~ ((exists f, In f (dc_fields c) /\ KeptDField f) \/ (exists m, In m (dc_methods c) /\ KeptDMeth m)) ->
+     (KeptDClass c <-> OwnChange (class_placeholder (dc_name c)) (dc_info c) (dc_doc c))).
+Proof. exact insert_retain_cases. Qed.
+Print Assumptions C10_insert_retain_cases.
+
+Theorem C10_own_change_definition : forall ph info doc,
+  OwnChange ph info doc <->
+  (match info with ANone => False | AAdd _ => True | ARemove a => a <> ph | AEdit a b => a <> b end)
+  \/ (match doc with ANone => False | AAdd _ => True | ARemove _ => True | AEdit a b => a <> b end).
+Proof. exact own_change_definition. Qed.
+Print Assumptions C10_own_change_definition.
+
+(* order plays no role at ANY level: reordering classes, fields, methods and parameters of the input
+   reorders the result *)
+Theorem C10_remove_dummy_perm_deep : forall M M' ns R,
+  PermMappings M M' -> remove_dummy M ns = Ok R ->
+  exists R', remove_dummy M' ns = Ok R' /\ PermMappings R R'.
+Proof. exact remove_dummy_perm_deep. Qed.
+Print Assumptions C10_remove_dummy_perm_deep.
+
+Theorem C10_insert_dummy_perm_deep : forall d d', PermDiff d d' -> PermDiff (insert_dummy d) (insert_dummy d').
+Proof. exact insert_dummy_perm_deep. Qed.
+Print Assumptions C10_insert_dummy_perm_deep.
+
+Theorem C10_perm_definitions :
+  (forall A (R : A -> A -> Prop) l l', PermBy R l l' <-> exists l0, Permutation l l0 /\ Forall2 R l0 l') /\
+  (forall m m', PermMeth m m' <->
+     m_desc m' = m_desc m /\ m_names m' = m_names m /\ m_doc m' = m_doc m /\ Permutation (m_params m) (m_params m')) /\
+  (forall c c', PermClass c c' <->
+     c_names c' = c_names c /\ c_doc c' = c_doc c /\ Permutation (c_fields c) (c_fields c')
+     /\ PermBy PermMeth (c_methods c) (c_methods c')) /\
+  (forall M M', PermMappings M M' <->
+     ms_ns M' = ms_ns M /\ ms_doc M' = ms_doc M /\ PermBy PermClass (ms_classes M) (ms_classes M')) /\
+  (forall M, PermMappings M M) /\ (forall d, PermDiff d d).
+Proof. exact perm_definitions. Qed.
+Print Assumptions C10_perm_definitions.
+
+(* the result of remove_dummy is a sub-tree of the input: same namespaces and comment; its classes
+   are a subsequence of the input's classes, each with the same names and comment, its fields /
+   parameters a subsequence of the input's (identical entries), its methods a subsequence with the
+   same descriptor, names and comment *)
+Theorem C10_remove_dummy_subtree : forall M ns R, remove_dummy M ns = Ok R -> SubMappings R M.
+Proof. exact remove_dummy_subtree. Qed.
+Print Assumptions C10_remove_dummy_subtree.
+
+(* insert_dummy never invents a key or a comment: every node of the result is a node of the input
+   (same key, same comment action, name action = the input's with Remove rewritten), same order *)
+Theorem C10_insert_dummy_subtree : forall d, DSubDiff (insert_dummy d) d.
+Proof. exact insert_dummy_subtree. Qed.
+Print Assumptions C10_insert_dummy_subtree.
+
+Theorem C10_sub_definitions :
+  (forall A B (R : B -> A -> Prop) l' l, Sub R l' l ->
+     (forall b, In b l' -> exists a, In a l /\ R b a) /\ (length l' <= length l)%nat) /\
+  (forall m' m, SubMeth m' m <->
+     m_desc m' = m_desc m /\ m_names m' = m_names m /\ m_doc m' = m_doc m /\ Sub eq (m_params m') (m_params m)) /\
+  (forall c' c, SubClass c' c <->
+     c_names c' = c_names c /\ c_doc c' = c_doc c /\ Sub eq (c_fields c') (c_fields c)
+     /\ Sub SubMeth (c_methods c') (c_methods c)) /\
+  (forall M' M, SubMappings M' M <->
+     ms_ns M' = ms_ns M /\ ms_doc M' = ms_doc M /\ Sub SubClass (ms_classes M') (ms_classes M)) /\
+  (forall c' c, DSubClass c' c <->
+     dc_name c' = dc_name c /\ dc_doc c' = dc_doc c
+     /\ dc_info c' = fix_info (class_placeholder (dc_name c)) (dc_info c)
+     /\ Sub DSubField (dc_fields c') (dc_fields c) /\ Sub DSubMeth (dc_methods c') (dc_methods c)) /\
+  (forall d' d, DSubDiff d' d <->
+     d_info d' = d_info d /\ d_doc d' = d_doc d /\ Sub DSubClass (d_classes d') (d_classes d)).
+Proof. exact sub_definitions. Qed.
+Print Assumptions C10_sub_definitions.
 
 (* non-vacuity: the repository's fixture, evaluated by the model, gives the repository's expected
    output (some entries removed at every level, some kept by comment, child, or name) *)
